@@ -391,6 +391,24 @@ func ttlCase(w *W, idx int) {
 			compared++
 		}
 	}
+	// rows inserted without a TTL on the replica and on the restored collection (they take the offsets
+	// of rows that expired on the primary, removed there by replayed / restored deletes) have no deadline
+	fresh := 0
+	for name, other := range map[string]*column.Collection{"restored": restored, "replica": replica} {
+		for i := 0; i < 150; i++ {
+			off, err := other.Insert(func(row column.Row) error { row.SetInt64("m", 1); return nil })
+			if err != nil {
+				fail("insert on the " + name + " collection failed: " + err.Error())
+				break
+			}
+			fresh++
+			if v, ok := readExpire(other, off); ok && v != 0 {
+				fail(fmt.Sprintf("a row inserted without a time-to-live on the %s collection (offset %d, freed by a delete that arrived through the stream / the snapshot) has deadline %d (%s)", name, off, v, showDeadline(v)))
+				break
+			}
+		}
+	}
+	w.Stat("rows_inserted_without_ttl_on_replica_and_restored", int64(fresh))
 	total := atomic.LoadInt64(&passes)
 	w.Stat("vacuum_passes_observed", total)
 	w.Stat("observations", observations)
